@@ -105,6 +105,9 @@ class Func:
         except Untranslatable as e:
             self.error = str(e); self.paths = None
             return self
+        except Exception as e:       # anything else the code under translation does to the executor (e.g. it mutates its symbolic inputs)
+            self.error = f'tracer failed: {type(e).__name__}: {str(e)[:120]}'; self.paths = None
+            return self
         for p in self.paths:
             # a result with a `None` component (e.g. `(theta, None)`) is modelled as `.none`
             if p.kind == 'ok' and p.value is not None and _has_none(p.value):
@@ -114,7 +117,12 @@ class Func:
             self.error = f'paths return different types: {sorted(types)}'; self.paths = None
             return self
         self.otype = types.pop() if types else ('none',)
-        self.tree = build_tree(self.paths)
+        try:
+            self.tree = build_tree(self.paths)
+        except AssertionError as e:
+            # the same decisions led to different continuations: the code is not a function of its arguments on the symbolic
+            # inputs (typically: it modified an argument in place, so a re-execution sees different data)
+            self.error = f'inconsistent branching (in-place modification of an argument?): {e}'; self.paths = None
         return self
 
     @property
